@@ -82,6 +82,7 @@ def replay(c):
 
 
 def run(rep):
+    tok.VALIDATE[0] = replay_fn
     b = BOUNDS[rep.tier]
     L = loader.load()
     core = L.core
@@ -93,5 +94,6 @@ def run(rep):
     rep.assumptions = ["validator is a pure function of the frame", "init_min <= 1 (as the property states)"]
     rep.outside = ["streams longer than %d frames: no inductive argument for completeness" % b["N"]]
     tok.run_bmc(rep, core, "diff", b["N"], tok.MODES, (False,), oblig, replay_fn, deadline_s=3000)
+    tok.run_bmc(rep, core, "diff", min(b["N"], 6), (0, 6), ("le1",), oblig, replay_fn)
     tok.run_bmc(rep, core, "diff-falsy-frames", min(b["N"], 6), (0,), (False,), oblig, replay_fn, falsy=True)
     rep.witness("reference and tokenizer agree on paths with >= 2 tokens", True)
